@@ -14,7 +14,7 @@ CONDS = [
          'len <= 2, lists of one or two', timeout={'quick': 110, 'thorough': 900}, parts={'quick': 8, 'thorough': 16}),
     Cond('contains_api_ok', ':-soup-contains / -own / :contains (alias) / inside :not / with extra alternatives, through the '
          'real parser and select(), for 14 search strings (empty, spanning node boundaries, quotes, comma, backslash, '
-         'escaped newline, non-ASCII)', '400/3000 seeded random trees; 14 strings x 7 forms', timeout={'quick': 100, 'thorough': 900},
+         'escaped newline, non-ASCII)', '400/3000 seeded random trees; 14 strings x 9 forms (incl. -own and plain combined in one compound)', timeout={'quick': 100, 'thorough': 900},
          parts={'quick': 4, 'thorough': 8}),
     Cond('empty_ok', ':empty and :not(:empty) == reference emptiness on every element', '400/3000 seeded random trees',
          timeout={'quick': 60, 'thorough': 300}, parts={'quick': 2, 'thorough': 4}),
